@@ -23,9 +23,14 @@ def handle_cell(cell: Cell, titles: Dict[str, int]):
 
     if isinstance(cell.row, str):
         if cell.row:
-            if int(cell.row) < 1:
+            try:
+                row = int(cell.row)
+            except ValueError as error:
+                # not digits, or more digits than int() converts
+                raise E2PyclCellException(f'`{cell.row[:20]}` is not a row number') from error
+            if row < 1:
                 raise E2PyclCellException('Row numbers start at 1')
-            cell.row = int(cell.row) - 1
+            cell.row = row - 1
         else:
             cell.row = None
 
